@@ -138,3 +138,17 @@ pub fn selftest() -> Vec<(String, bool)> {
     r.push(("sm3 streaming split".to_string(), h.finish() == sm3(&m)));
     r
 }
+
+/// HMAC-SM3 (RFC 2104 construction, 64-byte block)
+pub fn hmac(key: &[u8], data: &[u8]) -> [u8; 32] {
+    let mut k = [0u8; 64];
+    if key.len() > 64 {
+        k[..32].copy_from_slice(&sm3(key));
+    } else {
+        k[..key.len()].copy_from_slice(key);
+    }
+    let ipad: Vec<u8> = k.iter().map(|b| b ^ 0x36).collect();
+    let opad: Vec<u8> = k.iter().map(|b| b ^ 0x5c).collect();
+    let inner = sm3_parts(&[&ipad, data]);
+    sm3_parts(&[&opad, &inner])
+}
